@@ -24,8 +24,6 @@ func main() {
 	plain := flag.Bool("plainnames", false, "do not name user variables like identifiers the generated code introduces")
 	flag.Parse()
 	rng := rand.New(rand.NewSource(*seed))
-	var reg strings.Builder
-	reg.WriteString("//go:build verif && go1.25\n\npackage l2\n\nimport (\n")
 	var regs []string
 	id := 0
 	nprogs := 0
@@ -47,7 +45,7 @@ func main() {
 			opts.Emitters, opts.AutoInstr = false, false
 		}
 		pkgs = append(pkgs, pkgInfo{Name: pkg, AutoInstr: opts.AutoInstr})
-		fmt.Fprintf(&reg, "\t%s \"cffverif/corpus/%s\"\n", pkg, pkg)
+		regs = nil
 		var auxSrc strings.Builder
 		auxSrc.WriteString(progen.AuxHeader())
 		// programs are grouped 1-3 per file: several directives in one file
@@ -65,6 +63,18 @@ func main() {
 			if err := os.WriteFile(filepath.Join(dir, name+"_x.go"), []byte(progen.FileSource(pkg, pendBodies, pendExt)), 0o644); err != nil {
 				panic(err)
 			}
+			// one registry file per program file, so that the driver can drop a file
+			// the tool under test rejects (or whose output does not compile) and still run the others
+			var reg strings.Builder
+			fmt.Fprintf(&reg, "//go:build verif && go1.25\n\npackage l2\n\nimport %s \"cffverif/corpus/%s\"\n\nfunc init() {\n", pkg, pkg)
+			for _, r := range regs {
+				reg.WriteString(r)
+			}
+			reg.WriteString("}\n")
+			if err := os.WriteFile(filepath.Join(*out, "l2", "registry_"+pkg+"_"+name+"_x_gen.go"), []byte(reg.String()), 0o644); err != nil {
+				panic(err)
+			}
+			regs = nil
 			pendBodies, pendIDs, pendExt = nil, nil, false
 		}
 		groupSize := 1 + rng.Intn(3)
@@ -74,13 +84,13 @@ func main() {
 			pendBodies = append(pendBodies, src)
 			pendIDs = append(pendIDs, p.ID)
 			pendExt = pendExt || progen.NeedsExt(p, aux)
+			nprogs++
+			b, _ := json.Marshal(p)
+			regs = append(regs, fmt.Sprintf("\tregister(%q, %s.%s)\n", string(b), pkg, p.Name))
 			if len(pendBodies) >= groupSize {
 				flush()
 				groupSize = 1 + rng.Intn(3)
 			}
-			nprogs++
-			b, _ := json.Marshal(p)
-			regs = append(regs, fmt.Sprintf("\tregister(%q, %s.%s)\n", string(b), pkg, p.Name))
 		}
 		for n := 0; n < *per; n++ {
 			p := &progen.Prog{ID: id, Pkg: pkg, Name: fmt.Sprintf("Prog%d", id), AutoInstr: opts.AutoInstr, ModifierOK: opts.Modifier, PlainNames: *plain}
@@ -133,18 +143,10 @@ func main() {
 		sreg.WriteString("}\n")
 		if *kind != "modifier" {
 			pkgs = append(pkgs, pkgInfo{Name: pkg, Special: true})
-			if err := os.WriteFile(filepath.Join(*out, "l2", "registry_special_gen.go"), []byte(sreg.String()), 0o644); err != nil {
+			if err := os.WriteFile(filepath.Join(*out, "l2", "registry_pse_gen.go"), []byte(sreg.String()), 0o644); err != nil {
 				panic(err)
 			}
 		}
-	}
-	reg.WriteString(")\n\nfunc init() {\n")
-	for _, r := range regs {
-		reg.WriteString(r)
-	}
-	reg.WriteString("}\n")
-	if err := os.WriteFile(filepath.Join(*out, "l2", "registry_gen.go"), []byte(reg.String()), 0o644); err != nil {
-		panic(err)
 	}
 	b, _ := json.Marshal(pkgs)
 	_ = os.WriteFile(filepath.Join(*out, "corpus", "packages.json"), b, 0o644)
